@@ -1,5 +1,5 @@
 (* C14 — what the correspondence check evaluates on every case. *)
-From Yv Require Export Common.Base C14.Model C14.Spec.
+From Yv Require Export Common.Base C14.Model C14.Spec C14.Blocking.
 
 (* ------------------------------------------------------------------------ *)
 (* Stream A: system calls on one pipe, with a snapshot of the pipe after each
@@ -303,7 +303,93 @@ Definition run_raw (bytes : list N) (decoded value : str) : verdict :=
   if negb (strip_okb decoded value) then 15%N
   else if str_eqb (utf8_lossy bytes) decoded && str_eqb (subst_value bytes) value then 0%N else 1%N.
 
+(* ------------------------------------------------------------------------ *)
+(* Stream F: the blocking-mode write (poll_write_full) through the system API:
+   one write future at a time is polled; reads on the other end make room. *)
+Inductive bop :=
+  | FStart (data : list N)   (* create the future of write(wfd, data) and poll it once *)
+  | FPoll                    (* poll the pending future again *)
+  | FReadN (cap : nat)       (* non-blocking read on the read end *)
+  | FCloseRd.                (* close the read end *)
+
+Inductive bobs := FoW (r : bres) | FoR (r : rres) | FoUnit.
+
+Definition bres_eqb (a b : bres) : bool :=
+  match a, b with
+  | BReady n, BReady m => n =? m
+  | BPending, BPending | BErr, BErr => true
+  | _, _ => false
+  end.
+Definition bobs_eqb (a b : bobs) : bool :=
+  match a, b with
+  | FoW x, FoW y => bres_eqb x y
+  | FoR x, FoR y => rres_eqb x y
+  | FoUnit, FoUnit => true
+  | _, _ => false
+  end.
+
+Definition bstep (c : cfg) (p : pipe) (pend : option (list N * nat)) (o : bop)
+  : option (bobs * pipe * option (list N * nat)) :=
+  match o, pend with
+  | FStart d, None =>
+      match write_full_poll c p d 0 with
+      | (BPending, p', w) => Some (FoW BPending, p', Some (d, w))
+      | (r, p', _) => Some (FoW r, p', None)
+      end
+  | FPoll, Some (d, w) =>
+      match write_full_poll c p d w with
+      | (BPending, p', w') => Some (FoW BPending, p', Some (d, w'))
+      | (r, p', _) => Some (FoW r, p', None)
+      end
+  | FReadN cap, _ =>
+      if ropen p then let (r, p') := fifo_read p cap in Some (FoR r, p', pend) else None
+  | FCloseRd, _ =>
+      if ropen p then Some (FoUnit, mkPipe (buf p) (pred (rrefs p)) (wrefs p), pend) else None
+  | _, _ => None
+  end.
+
+Fixpoint block_hist (c : cfg) (p : pipe) (pend : option (list N * nat))
+    (h : list (bop * bobs * snap)) : verdict :=
+  match h with
+  | [] => 0%N
+  | (o, b, sn) :: h =>
+      match bstep c p pend o with
+      | None => 99%N
+      | Some (b', p', pend') =>
+          if bobs_eqb b b' && snap_eqb sn (snap_of p') then block_hist c p' pend' h
+          else match block_hist c p' pend' h with 99%N => 99%N | _ => 1%N end
+      end
+  end.
+
+(* oracle: what has been read is a prefix of what the writes were asked to
+   transfer, in order; a write that completes with all readers present
+   transfers its whole request; the capacity is respected *)
+Definition breads (h : list (bop * bobs * snap)) : list N :=
+  flat_map (fun x => match x with (_, FoR (ROk bs), _) => bs | _ => [] end) h.
+Definition bwrites (h : list (bop * bobs * snap)) : list N :=
+  flat_map (fun x => match x with (FStart d, _, _) => d | _ => [] end) h.
+Definition bclosed (h : list (bop * bobs * snap)) : bool :=
+  existsb (fun x => match x with (FCloseRd, _, _) => true | _ => false end) h.
+
+Fixpoint bcomplete (h : list (bop * bobs * snap)) (cur : nat) : bool :=
+  match h with
+  | [] => true
+  | (FStart d, FoW (BReady n), _) :: r => (n =? length d) && bcomplete r 0
+  | (FStart d, _, _) :: r => bcomplete r (length d)
+  | (FPoll, FoW (BReady n), _) :: r => (n =? cur) && bcomplete r 0
+  | _ :: r => bcomplete r cur
+  end.
+
+Definition run_block (c : cfg) (h : list (bop * bobs * snap)) : verdict :=
+  let rd := breads h in
+  if negb (bytes_eqb rd (firstn (length rd) (bwrites h))) then 2%N
+  else if negb (forallb (fun x => match x with (_, _, ((n, _, _), _, _)) => n <=? psize c end) h) then 3%N
+  else if negb (bclosed h) && negb (bcomplete h 0) then 5%N
+  else if negb (cfg_okb c) then 1%N
+  else block_hist c new_pipe None h.
+
 Inductive case :=
+  | CBlock (c : cfg) (h : list (bop * bobs * snap))
   | CRaw (bytes : list N) (decoded value : str)
   | CPipe (c : cfg) (h : list (op * obs * snap))
   | CXfer (x : xcase)
@@ -312,6 +398,7 @@ Inductive case :=
 
 Definition run_case (k : case) : verdict :=
   match k with
+  | CBlock c h => run_block c h
   | CRaw b d v => run_raw b d v
   | CPipe c h => run_pipe c h
   | CXfer x => run_xfer x
